@@ -188,16 +188,16 @@ class Interp:
         self.havoc_log: List[str] = []
 
     # ------------------------------------------------------------------ resolve
-    def closure_for(self, module: str, qualname: str, defcls: Any = None) -> Closure:
-        info = self.index.find(module, qualname)
+    def closure_for(self, module: str, qualname: str, defcls: Any = None, accessor: Optional[str] = None) -> Closure:
+        info = self.index.find(module, qualname, accessor)
         mod = sys.modules.get(module)
         if mod is None:
             __import__(module)
             mod = sys.modules[module]
         return Closure(info.node, mod, qualname, None, defcls, module)
 
-    def closure_of_real(self, fn: Any) -> Optional[Closure]:
-        """Closure for a real function object of a repo module (by module+qualname)."""
+    def closure_of_real(self, fn: Any, accessor: Optional[str] = None) -> Optional[Closure]:
+        """Closure for a real function object of a repo module (by module+qualname; accessor: 'setter'/'deleter' of a property)."""
         fn = getattr(fn, '__wrapped__', fn) if not isinstance(fn, types.FunctionType) else fn
         mod = getattr(fn, '__module__', None)
         qn = getattr(fn, '__qualname__', None)
@@ -206,7 +206,7 @@ class Interp:
         if '<locals>' in qn:
             return None
         try:
-            return self.closure_for(mod, qn)
+            return self.closure_for(mod, qn, accessor=accessor)
         except KeyError:
             return None
 
@@ -697,9 +697,15 @@ class Interp:
                 kind = spec.lists.get(n) or _infer_kind(v)
                 if kind is None:
                     raise Unreached('list %r is mutated in loop %s of %s: the loop contract must name its element kind' % (n, label, key))
-                f.locals[n] = core.SList.from_list(kind, v)
+                if isinstance(kind, tuple):  # ('ref', wrap, unwrap): list of opaque references
+                    sl = core.SeqList(kind[1], kind[2])
+                    for x in v:
+                        sl.append(x)
+                    f.locals[n] = sl
+                else:
+                    f.locals[n] = core.SList.from_list(kind, v)
                 names.add(n)
-            elif isinstance(v, core.SList):
+            elif isinstance(v, (core.SList, core.SeqList)):
                 names.add(n)
         for n in sorted(names):
             if n in spec.no_auto:
@@ -789,11 +795,11 @@ class Interp:
         f.locals['_i_' + label.replace('#', '')] = 0
         ctx.check('%s#inv:%s:entry' % (key, label), spec.inv(L))
         mode = ctx.choose(2, 'loop:%s' % label)
-        self.havoc_loop(s.body, f, spec, label)
         i = ctx.fresh_int('i_' + label)
         n = seq.length()
         ctx.assume(And(i >= 0, i <= n))
         f.locals['_i_' + label.replace('#', '')] = i
+        self.havoc_loop(s.body, f, spec, label)
         ctx.assume(spec.inv(L))
         if mode == 0:
             ctx.assume(i < n)
@@ -963,7 +969,7 @@ class Interp:
                 if isinstance(raw, property):
                     if raw.fset is None:
                         self.ctx.raise_py(AttributeError, "can't set attribute %r" % name)
-                    c = self.closure_of_real(raw.fset)
+                    c = self.closure_of_real(raw.fset, 'setter')
                     if c is None:
                         c = self.nested_prop_closure(raw.fset)
                     if c is None:
@@ -994,7 +1000,7 @@ class Interp:
                         raw = k.__dict__[name]
                         break
                 if isinstance(raw, property) and raw.fdel is not None:
-                    c = self.closure_of_real(raw.fdel) or self.nested_prop_closure(raw.fdel)
+                    c = self.closure_of_real(raw.fdel, 'deleter') or self.nested_prop_closure(raw.fdel)
                     if c is None:
                         raise Unreached('property deleter without source')
                     self.call(c, [o], {})
@@ -1170,6 +1176,12 @@ class Interp:
             r = self.class_attr(x._cls, '__str__')
             if r is not None and isinstance(r[1], Closure):
                 return self.call(r[1], [x], {})
+        if isinstance(x, ExcVal):
+            # str(exception): the real object's text; BaseException.__str__ otherwise ('' / str(args[0]))
+            if x.real is not None:
+                return str(x.real)
+            if isinstance(x.cls, type) and x.cls.__str__ is BaseException.__str__ and not x.kwargs and len(x.args) <= 1:
+                return self.to_str(x.args[0]) if x.args else ''
         raise Unreached('str() of %r' % (x,))
 
     def e_BoolOp(self, e: ast.BoolOp, f: Frame) -> Any:
